@@ -82,6 +82,11 @@ pub fn check(world: &World, j: &Judgement, rr: &RunResult, cfg: &OracleCfg) -> V
         out.push(mm("no-observation", "run produced no observation".into()));
         return out;
     };
+    // ---- the harness's own failures are not observations of blockwatch
+    if let Some(h) = rr.panics.iter().find(|p| p.starts_with("HARNESS:")) {
+        out.push(mm("harness-panic", h.clone()));
+        return out;
+    }
     // ---- no escape
     if let Obs::Panicked(m) = obs {
         out.push(mm("panic", format!("panic crossed the pipeline: {m}")));
